@@ -49,11 +49,11 @@ func c20PointMethods(gi *GroupInfo, P, Q kyber.Point, k kyber.Scalar) []roMethod
 		{"Equal", func() string { return fmt.Sprint(P.Equal(Q), Q.Equal(P), P.Equal(P)) }},
 		{"Clone", func() string { return pointHex(P.Clone()) }},
 		{"MarshalSize", func() string { return fmt.Sprint(P.MarshalSize()) }},
-		{"Add-operand", func() string { return pointHex(g.Point().Add(P, Q)) }},
-		{"Sub-operand", func() string { return pointHex(g.Point().Sub(Q, P)) }},
-		{"Neg-operand", func() string { return pointHex(g.Point().Neg(P)) }},
-		{"Mul-operand", func() string { return pointHex(g.Point().Mul(k, P)) }},
-		{"Set-source", func() string { return pointHex(g.Point().Set(P)) }},
+		{"Add-operand", func() string { return pointHex(newPoint(gi).Add(P, Q)) }},
+		{"Sub-operand", func() string { return pointHex(newPoint(gi).Sub(Q, P)) }},
+		{"Neg-operand", func() string { return pointHex(newPoint(gi).Neg(P)) }},
+		{"Mul-operand", func() string { return pointHex(newPoint(gi).Mul(k, P)) }},
+		{"Set-source", func() string { return pointHex(newPoint(gi).Set(P)) }},
 		{"scalar.MarshalBinary", func() string { b, _ := k.MarshalBinary(); return fmt.Sprintf("%x", b) }},
 		{"scalar.String", func() string { return k.String() }},
 		{"scalar.Clone+Equal", func() string { c := k.Clone(); return fmt.Sprint(c.Equal(k), k.Equal(c)) }},
@@ -67,7 +67,7 @@ func c20PointMethods(gi *GroupInfo, P, Q kyber.Point, k kyber.Scalar) []roMethod
 		ms = append(ms, roMethod{"Data", func() string { d, err := P.Data(); return fmt.Sprintf("%x/%v", d, err != nil) }})
 	}
 	if gi.MulNil {
-		ms = append(ms, roMethod{"Mul(k,nil)", func() string { return pointHex(g.Point().Mul(k, nil)) }})
+		ms = append(ms, roMethod{"Mul(k,nil)", func() string { return pointHex(newPoint(gi).Mul(k, nil)) }})
 	}
 	if gi.Role == 1 {
 		s := gi.Suite
